@@ -946,6 +946,8 @@ where
                 self.scheduler_ctx.next_validation_idx(self.tx_dependency.index())
             {
                 #[cfg(grevm_verif)]
+                crate::verif::event(crate::verif::Event::ValidationClaimed { txid: validation_idx });
+                #[cfg(grevm_verif)]
                 crate::verif::sched_point("win.next.validation_claimed");
                 let mut tx = self.tx_states[validation_idx].lock();
                 // Rewinds can make cursor claims duplicate or stale; state under this lock decides
